@@ -177,6 +177,12 @@ def tlc_remove2(scn, ignore=True, nofollow=True, attack=0, dump=False, anyorder=
 def static_cases(prop, rnd, quick):
     gen = run_tlc("MC_RootOps.tla", "MC_C12_gen.cfg", workers=8, timeout=1800)
     design = run_tlc("MC_RootOps.tla", "MC_C12_design.cfg", workers=8, timeout=1800)
+    if prop == "C12":
+        # the emulated partial lookup (SymlinkStack, Partial.tla) against the openat2-style one, for every path of the
+        # instance; and the variant that keeps "." in the stack (what seeded change C04b does) must break it
+        pe = run_tlc("MC_RootOps.tla", "MC_C12_partial.cfg", workers=8, timeout=1800)
+        pk = run_tlc("MC_RootOps.tla", "MC_C12_partial_keepdot.cfg", workers=8, timeout=1800)
+        static_cases.partial = dict(instances=pe["distinct"] // 2, complete=pe["complete"], violated=pe["violated"], variant_keep_dot_in_stack=pk["violated"])
     trees, gcases = {}, []
     for tag, body in gen["prints"]:
         if tag == "TREES":
@@ -348,7 +354,7 @@ def run(prop, tier_):
     conf = None
     if prop == "C12":
         todo = [(c, r) for c, r in zip(cases, results)
-                if c.get("feat", {}).get("openat2", True) is True and r.get("status") == "ok" and all(x.get("op") == "mkdir_all" for x in c.get("calls", []))
+                if set(c.get("feat", {})) <= {"openat2"} and r.get("status") == "ok" and all(x.get("op") == "mkdir_all" for x in c.get("calls", []))
                 and c["meta"].get("kind") in ("static", "concurrent", "concurrent-tlc")]
         conf = trace_conformance("MC_TraceMkdir2.tla", "TraceMkdir2.cfg", project_mkdir2, todo, batch=120)
         for d in conf["drift"][:5]:
@@ -367,7 +373,7 @@ def run(prop, tier_):
             v.notes.append("MODEL-DRIFT Remove2: invariant %s fails on the model state driven by the real trace of %s" % (d["invariant"], d["case"]))
         conf_rm = dict(conf_rm, drift=conf_rm["drift"][:10], invariant_violations=conf_rm["invariant_violations"][:10], n_drift=len(conf_rm["drift"]), n_invariant=len(conf_rm["invariant_violations"]))
     rc = v.finish()
-    cov = dict(mkdir2_action_conformance=conf, remove2_action_conformance=conf_rm, states=max(gen["distinct"], 1) + stats["trace_states"], transitions=max(gen["states"], 1) + stats["events"], traces_validated_against_impl=stats["traces"],
+    cov = dict(partial_lookup_equivalence=getattr(static_cases, "partial", None) if prop == "C12" else None, mkdir2_action_conformance=conf, remove2_action_conformance=conf_rm, states=max(gen["distinct"], 1) + stats["trace_states"], transitions=max(gen["states"], 1) + stats["events"], traces_validated_against_impl=stats["traces"],
                samples=samples, evaluations=len(cases), distinct_nontrivial=len({json.dumps(c["meta"], sort_keys=True) for c in cases}),
                rule="static case = (path spelling generated by TLC, backend); concurrent case = (scenario of two calls, backend, schedule prefix with up to two preemptions at relevant-syscall granularity); all distinct by construction; non-trivial = all (every path has symlink/dot/missing components or a second process)",
                exhaustive=not quick, static_generated=total, static_executed=len(scases), schedule_space=space, schedules_executed=len(ccases),
